@@ -1000,8 +1000,10 @@ func main() {
 	// --- translated code (Gonuts/Gen/Code.lean) ---
 	if len(os.Args) > 3 {
 		code := emitCode(
-			map[string]*pkg{"cashu": cashuP, "crypto": cryptoP, "mint": mintP, "wallet": walletP},
-			map[string]constEnv{"cashu": cashuC, "crypto": cryptoC, "mint": mintC},
+			map[string]*pkg{"cashu": cashuP, "crypto": cryptoP, "mint": mintP, "wallet": walletP, "nut04": nut04P, "nut05": nut05P,
+				"nut07": nut07P, "nut10": nut10P, "nut11": nut11P},
+			map[string]constEnv{"cashu": cashuC, "crypto": cryptoC, "mint": mintC, "nut04": collectConsts(nut04P), "nut05": collectConsts(nut05P),
+				"nut07": collectConsts(nut07P), "nut10": collectConsts(nut10P), "nut11": nut11C},
 			[]trTarget{
 				{"cashu", "", "OverflowAddUint64"}, {"cashu", "", "UnderflowSubUint64"},
 				{"cashu", "BlindedMessages", "Amount"}, {"cashu", "BlindedMessages", "AmountChecked"},
@@ -1010,6 +1012,12 @@ func main() {
 				{"cashu", "", "Max"}, {"cashu", "", "Count"},
 				{"wallet", "", "feesForProofs"}, {"wallet", "", "feesForCount"},
 				{"mint", "Mint", "TransactionFees"},
+				{"wallet", "", "inputsWithoutDLEQ"},
+				{"nut11", "", "IsSigAll"}, {"nut11", "", "DuplicateSignatures"}, {"nut11", "", "ParseP2PKTags"},
+				{"nut10", "SecretKind", "String"},
+				{"nut04", "State", "String"}, {"nut04", "", "StringToState"},
+				{"nut05", "State", "String"}, {"nut05", "", "StringToState"},
+				{"nut07", "State", "String"}, {"nut07", "", "StringToState"},
 			})
 		if err := os.WriteFile(os.Args[3], []byte(code), 0644); err != nil {
 			fail("write: %v", err)
